@@ -19,25 +19,25 @@ PV = [
     ("datetime", [dt.datetime(2020, 1, 2, 3, 4, 5)]), ("url", ["http://x.org/a?b=1&c=2"]), ("person", ["Ünï Cödé <a@b>"]),
     ("date", [dt.date(987, 6, 5)]), ("text", ["first note", "second\nline", "third"]),
     ("string", ["a", "b b", "c", "d", "e", "f", "g", "h", "i", "j", "k", "l"]),
-    ("2-tuple", ["(1;2)", "(3;4)"]), ("3-tuple", ["(a;b;c)"]), ("int", []), (None, []), ("string", ['say "hi"', "it's", "[br]"]),
+    ("2-tuple", ["(1;2)", "(3;4)"]), ("3-tuple", ["(a;b;c)"]), ("int", []), (None, []), ("string", ['say "hi"', "it's", "[br]"]), ("string", ["100%", "%%d"]),
 ]
-TEXTS = ["plain", "  surrounded by space \n", "<tag> & \"quote\"", "ünï", "yes", "12", None]
+TEXTS = ["plain", "  surrounded by space \n", "<tag> & \"quote\"", "ünï", "yes", "12", None, "50%% of 10% %s"]
 
 
 def mk(variant, salt=0):
     def f(h, k, st):
         n = (int(h[1:]) if h[1:].isdigit() else 0) + variant + salt
         if k == "doc":
-            return odml.Document(author=TEXTS[n % 6], version=TEXTS[(n + 1) % 7], date=[None, dt.date(2020, 1, 1 + n % 27), dt.date(321, 2, 3)][n % 3])
+            return odml.Document(author=TEXTS[(n % 8) if n % 8 != 6 else 0], version=TEXTS[(n + 1) % 8], date=[None, dt.date(2020, 1, 1 + n % 27), dt.date(321, 2, 3)][n % 3])
         if k == "sec":
-            return odml.Section(name=st["name"][h], type=["t", "a/b", " spaced type "][n % 3], definition=TEXTS[n % 7],
-                                reference=TEXTS[(n + 3) % 7], sec_cardinality=CARDS[n % 9], prop_cardinality=CARDS[(n + 2) % 9])
+            return odml.Section(name=st["name"][h], type=["t", "a/b", " spaced type "][n % 3], definition=TEXTS[n % 8],
+                                reference=TEXTS[(n + 3) % 8], sec_cardinality=CARDS[n % 9], prop_cardinality=CARDS[(n + 2) % 9])
         if k == "prop":
             d, v = PV[(n * 5 + variant) % len(PV)]
             return odml.Property(name=st["name"][h], dtype=d, values=list(v), unit=[None, "mV", " µm "][n % 3],
-                                 uncertainty=[None, 0, 0.5, 12][n % 4], definition=TEXTS[(n + 1) % 7], reference=TEXTS[(n + 2) % 7],
+                                 uncertainty=[None, 0, 0.5, 12][n % 4], definition=TEXTS[(n + 1) % 8], reference=TEXTS[(n + 2) % 8],
                                  dependency=[None, "other"][n % 2], dependency_value=[None, "val"][n % 2],
-                                 value_origin=TEXTS[(n + 4) % 7], val_cardinality=CARDS[(n + 1) % 9])
+                                 value_origin=TEXTS[(n + 4) % 8], val_cardinality=CARDS[(n + 1) % 9])
         return None
     return f
 
